@@ -3,6 +3,7 @@ This module contains optimizations for the `{% provide %}` feature.
 """
 
 from contextlib import contextmanager
+from threading import RLock
 from typing import Dict, Generator, NamedTuple, Set
 
 from django.template import Context
@@ -85,11 +86,13 @@ provide_references: Dict[str, Set[str]] = {}
 # Keep track of all the listeners that are referencing any provided data.
 all_reference_ids: Set[str] = set()
 
+# These registries are shared by all threads that render templates. Each (un)registration touches
+# several of them, so it must not interleave with a (un)registration made by another thread.
+_provide_lock = RLock()
+
 
 @contextmanager
 def managed_provide_cache(provide_id: str) -> Generator[None, None, None]:
-    all_reference_ids_before = all_reference_ids.copy()
-
     def cache_cleanup() -> None:
         # Lastly, remove provided data from the cache that was generated during this run,
         # IF there are no more references to it.
@@ -106,28 +109,22 @@ def managed_provide_cache(provide_id: str) -> Generator[None, None, None]:
     # Otherwise, when the body contains components that are rendered right away (root components,
     # e.g. when `{% provide %}` is used at the top level of a template), the first such component to finish
     # would drop the last reference, and the provided data would be gone for its siblings.
-    if provide_id not in provide_references:
-        provide_references[provide_id] = set()
-    provide_references[provide_id].add(provide_id)
-    all_reference_ids.add(provide_id)
+    with _provide_lock:
+        if provide_id not in provide_references:
+            provide_references[provide_id] = set()
+        provide_references[provide_id].add(provide_id)
+        all_reference_ids.add(provide_id)
 
     try:
         yield
-    except Exception as e:
-        # In case of an error in `Component.render()`, there may be some
-        # references left hanging, so we remove them.
-        new_reference_ids = all_reference_ids - all_reference_ids_before
-        for reference_id in new_reference_ids:
-            unregister_provide_reference(reference_id)
-
-        # Cleanup
-        cache_cleanup()
-        # Forward the error
-        raise e from None
-
-    # Cleanup
-    unregister_provide_reference(provide_id)
-    cache_cleanup()
+    finally:
+        # NOTE: In case of an error, the components that were being rendered inside the `{% provide %}` tag
+        # remove their references themselves (see `Component._render_impl()` and `component_post_render()`).
+        # We must NOT guess them from the change of `all_reference_ids` while the body was being rendered,
+        # because that includes the references registered in the meantime by renders in other threads.
+        with _provide_lock:
+            unregister_provide_reference(provide_id)
+            cache_cleanup()
 
 
 def register_provide_reference(context: Context, reference_id: str) -> None:
@@ -135,31 +132,33 @@ def register_provide_reference(context: Context, reference_id: str) -> None:
     if not provide_cache:
         return
 
-    all_reference_ids.add(reference_id)
+    with _provide_lock:
+        all_reference_ids.add(reference_id)
 
-    for key, provide_id in context.flatten().items():
-        if not key.startswith(_INJECT_CONTEXT_KEY_PREFIX):
-            continue
+        for key, provide_id in context.flatten().items():
+            if not key.startswith(_INJECT_CONTEXT_KEY_PREFIX):
+                continue
 
-        if provide_id not in provide_references:
-            provide_references[provide_id] = set()
-        provide_references[provide_id].add(reference_id)
+            if provide_id not in provide_references:
+                provide_references[provide_id] = set()
+            provide_references[provide_id].add(reference_id)
 
 
 def unregister_provide_reference(reference_id: str) -> None:
-    # No registered references, nothing to unregister
-    if reference_id not in all_reference_ids:
-        return
+    with _provide_lock:
+        # No registered references, nothing to unregister
+        if reference_id not in all_reference_ids:
+            return
 
-    all_reference_ids.remove(reference_id)
+        all_reference_ids.remove(reference_id)
 
-    for provide_id in list(provide_references.keys()):
-        if reference_id not in provide_references[provide_id]:
-            continue
+        for provide_id in list(provide_references.keys()):
+            if reference_id not in provide_references[provide_id]:
+                continue
 
-        provide_references[provide_id].remove(reference_id)
+            provide_references[provide_id].remove(reference_id)
 
-        # There are no more references to the provided data, so we can delete it.
-        if not provide_references[provide_id]:
-            provide_cache.pop(provide_id)
-            provide_references.pop(provide_id)
+            # There are no more references to the provided data, so we can delete it.
+            if not provide_references[provide_id]:
+                provide_cache.pop(provide_id)
+                provide_references.pop(provide_id)
